@@ -30,7 +30,7 @@ ASSUMPTIONS = [
 FLOORS = {"repeat_kind": 0.2}
 
 OPS = ["sb20_default", "sb20_explicit", "sb21_default", "sb21_explicit", "sb21_export", "adv_params", "sb21_cfg_shared", "sb21_cfg_fresh",
-       "mbi_class", "mbi_config", "otfad_blob", "otfad_export", "iee_xts", "iee_ctr", "bee_prdb", "bee_kib", "bee_header", "hab_nonce",
+       "mbi_class", "mbi_config", "mbi_reload", "mbi_reload_given", "otfad_blob", "otfad_export", "iee_xts", "iee_ctr", "bee_prdb", "bee_kib", "bee_header", "hab_nonce",
        "hab_dek_128", "hab_dek_256"]
 
 
@@ -108,6 +108,20 @@ def _do(op: str, idx: int, env: dict | None = None) -> dict[str, bytes]:
 
         Mbi_MixinCtrInitVector.mix_load_from_config(obj, {})  # configuration without CtrInitVector
         return {"mbi_ctr_iv": bytes(obj.ctr_init_vector)}
+    if op in ("mbi_reload", "mbi_reload_given"):
+        # one image object that is loaded again and again, as a long-running tool does with its work object
+        from spsdk.image.mbi.mbi_mixin import Mbi_MixinCtrInitVector
+
+        obj = env.get("mbi_obj")
+        if obj is None:
+            obj = env["mbi_obj"] = _mbi_cls()()
+            obj.search_paths = None
+        given = bytes([0xA0 + idx]) * 16
+        Mbi_MixinCtrInitVector.mix_load_from_config(obj, {"CtrInitVector": given.hex()} if op == "mbi_reload_given" else {})
+        iv = bytes(obj.ctr_init_vector)
+        if op == "mbi_reload_given" and iv != given:
+            raise AssertionError("configured CtrInitVector not taken")
+        return {"mbi_ctr_iv": iv}
     if op in ("otfad_blob", "otfad_export"):
         from spsdk.utils.crypto.otfad import KeyBlob
 
